@@ -1321,7 +1321,9 @@ class Ex:
                     bad.append(nm)
             fi._decorators_ok = not bad
             fi._bad_decorators = bad
-        if not fi._decorators_ok:
+        if not fi._decorators_ok and getattr(fi, "_memo_checked", False) and set(fi._bad_decorators) <= {"lru_cache", "cache"}:
+            pass            # reached through models.memo_call, which has established that this memo is transparent
+        elif not fi._decorators_ok:
             raise Unsupported(f"{fi.qualname} is wrapped by the decorator(s) {fi._bad_decorators}, which the executor does not model")
         cc = self.callee_contracts.get(fi.qualname)
         if cc is not None and self.depth > 0:
